@@ -398,8 +398,9 @@ static void run_once(void)
                 sem_init(&T[t].sem, 0, 0);
                 T[t].finished = T[t].want_lock = T[t].waiting = 0; T[t].epoch = 0; T[t].site = 0; T[t].opidx = 0;
         }
-        pthread_create(&T[0].pt, NULL, service_body, NULL);
-        for (int t = 1; t < nthreads; t++) pthread_create(&T[t].pt, NULL, producer_body, (void *)(long)t);
+        if (pthread_create(&T[0].pt, NULL, service_body, NULL) != 0) fatal("pthread_create failed");
+        for (int t = 1; t < nthreads; t++)
+                if (pthread_create(&T[t].pt, NULL, producer_body, (void *)(long)t) != 0) fatal("pthread_create failed");
         sched_point();                                  /* choose who starts */
         /* wait until every thread has finished (or the run was aborted) */
         for (;;) {
